@@ -16,6 +16,12 @@ def _garbage_scripts(rng, n):
             s.append(("adv", rng.choice([1, 8, 17, 24])))
         s.append(("heal",))
         out.append(("faults", s))
+    # the client is closed while it is still busy resetting the connection after bad input, opened again later, and meets bad input
+    # again: it must recover exactly as the first time
+    for what in ("garbage", "badcrc", "trunc"):
+        for k in range(0, 5):
+            out.append(("faults", [("net", "accept"), ("open",), ("adv", 8), ("peer", what), ("turn", k), ("close",), ("adv", 24), ("open",), ("adv", 8),
+                                   ("peer", what), ("adv", 8), ("heal",)]))
     return out
 
 
